@@ -8,6 +8,12 @@ pub fn read_type(src: &mut &[u8]) -> Result<Option<Type>, DecodeError> {
     let mut len = usize::from(encoding >> 4);
 
     if len == 0x0f {
+        // The length is a single typed integer. It cannot itself have an overflowing length, which
+        // also bounds the recursion through `read_value`.
+        if src.first().is_some_and(|b| b >> 4 == 0x0f) {
+            return Err(DecodeError::InvalidLengthValue);
+        }
+
         let value = read_value(src).map_err(|e| DecodeError::InvalidValue(Box::new(e)))?;
 
         len = match value.and_then(|v| v.as_int()) {
